@@ -31,11 +31,11 @@ func zzAdmWorld(nANP int, rich bool) *zzGen {
 		prios = append(prios, pr)
 		switch {
 		case rich && k == 0:
-			g.addANP(g.zzGenANPx(name, pr, ing, 1+vf_Choose(name+".nrules", 2), 3, 3, 4))
+			g.addANP(g.zzGenANPx(name, pr, ing, 1+vf_Choose(name+".nrules", 2), 3, 3, 5))
 		case rich:
 			g.addANP(g.zzGenANPx(name, pr, ing, 1, 2, 2, 2))
-		case k == 0: // quick: the first ANP from a menu of 24 shapes, with a symbolic port range
-			g.addANP(g.zzGenANPx(name, pr, ing, 1, 2, 2, 2))
+		case k == 0: // quick: the first ANP from a menu of 36 shapes (ports: all / two entries UDP+default / a symbolic TCP range)
+			g.addANP(g.zzGenANPx(name, pr, ing, 1, 2, 2, 3))
 		default: // quick: further ANPs select everything, any action, all ports
 			g.addANP(g.zzGenANPx(name, pr, ing, 1, 1, 1, 1))
 		}
